@@ -533,7 +533,11 @@ pub fn get_terms(term: &Unifiable, ss: &Rc<SubstitutionSet>) -> Vec<Unifiable> {
 
         while *head != Unifiable::Nil {
 
-            collected_terms.push(head.clone());
+            // A list element which is a bound variable gives its value.
+            match get_ground_term(head, ss) {
+                Some(ground) => { collected_terms.push(ground.clone()); },
+                None => { collected_terms.push(head.clone()); },
+            }
 
             match get_list_data(slist) {
                 Some((t, n, tv)) => {
